@@ -214,6 +214,26 @@ func init() {
 		p.call(fr, a[0], nil)
 		return sym.False
 	}, zz+"Recover")
+	// Abort() stops the running operation like a process kill: no deferred function runs; control returns to the
+	// innermost CatchAbort.
+	reg(func(p *Path, fr *frame, fn *ssa.Function, a []Value) Value {
+		panic(abortSignal{})
+	}, zz+"Abort")
+	reg(func(p *Path, fr *frame, fn *ssa.Function, a []Value) (res Value) {
+		depth := p.depth
+		defer func() {
+			if r := recover(); r != nil {
+				if _, ok := r.(abortSignal); ok {
+					p.depth = depth
+					res = sym.True
+					return
+				}
+				panic(r)
+			}
+		}()
+		p.call(fr, a[0], nil)
+		return sym.False
+	}, zz+"CatchAbort")
 	// LastPanic returns a description of the most recent panic ("" if none).
 	reg(func(p *Path, fr *frame, fn *ssa.Function, a []Value) Value {
 		if n := len(p.panics); n > 0 {
